@@ -226,6 +226,26 @@ def run_check(tier, seed):
             run.add_violation("oracle", {"stream": "closed_stdout", "what": "panic when stdout is a closed pipe", "described": {"argv": argv}, "rc": p.returncode,
                                          "stderr": p.stderr.decode("utf-8", "replace")[:400]}, True)
 
+    # ---------------- stream 3a: timestamp patterns that look like strftime specifiers, with a timestamp available to format
+    st = run.streams.setdefault("percent_timestamp_patterns", {"cases": 0, "exit0": 0})
+    pj = []
+    for pat in ["%Q", "%", "%Y%", "%%", "%Y-%m", "%+", "%:z", "%3f", "%\u00e9", "%-", "%Y%m%d%H%M%S", "%E", "%O", "%1", "% Y", "%#z", "%.3f", "%_"]:
+        for sec in ("core", "extra_core", "build"):
+            parts = {"core": "var(Major)", "extra_core": "", "build": ""}
+            parts[sec] = (parts[sec] + "," if parts[sec] else "") + 'var(ts("%s"))' % pat
+            ron = "(core:[%s],extra_core:[%s],build:[%s])" % (parts["core"], parts["extra_core"], parts["build"])
+            for sub in ("version", "flow") if sec == "build" else ("version",):
+                for fmt in ("semver", "pep440", "zerv"):
+                    pj.append(([sub, "--source=none", "--tag-version=1.2.3", "--bumped-timestamp=1700000000", "--schema-ron=" + ron, "--output-format=" + fmt] + (["--dirty"] if sub == "flow" else []), None))
+    pres = run_procs(pj, timeout=60)
+    for (argv, _), (rc, out, err) in zip(pj, pres):
+        st["cases"] += 1
+        run.evaluations += 1
+        st["exit0"] += rc == 0
+        bad = discipline(rc, out, err)
+        if bad:
+            run.add_violation("oracle", {"stream": "percent_timestamp_patterns", "what": bad, "described": {"argv": argv}, "rc": rc, "stderr": err.decode("utf-8", "replace")[:400]}, True)
+
     # ---------------- stream 3b: templates that are large or deeply nested
     # Tera's parser and renderer (third-party, recursive) are handed the template text as it is: moderately nested templates must work or
     # be refused cleanly; nesting / chains thousands deep overflow the stack inside Tera (known finding, listed with this exact input class)
@@ -272,7 +292,8 @@ def run_check(tier, seed):
         stub = gitfx.make_stub(os.path.join(root, "stub"))
         cmds = [["version"], ["version", "--output-format=pep440"], ["flow"], ["version", "--output-format=zerv"], ["flow", "--output-format=pep440", "--schema=standard-base"],
                 ["version", "--schema=calver", "-v"]]
-        names = list(repos) if not q else ["ahead", "tagged_dirty", "no_tags", "annotated", "feature_branch", "empty_repo", "not_a_repo", "multi_tags", "release_branch"]
+        names = list(repos) if not q else ["ahead", "tagged_dirty", "no_tags", "annotated", "feature_branch", "empty_repo", "not_a_repo", "multi_tags", "release_branch",
+                                           "long_unicode_branch2", "long_unicode_branch3"]
         st = run.streams.setdefault("git_fault_injection", {"repos": len(names), "baseline_runs": 0, "fault_runs": 0, "git_calls_seen": 0, "clean_failures": 0, "tolerated": 0, "modes": gitfx.MODES})
         base_jobs = []
         for n in names:
@@ -291,6 +312,17 @@ def run_check(tier, seed):
             if d:
                 run.add_violation("oracle", {"stream": "git_fault_injection", "what": d, "described": desc, "rc": p.returncode, "stdout": p.stdout.decode("utf-8", "replace")[:300],
                                              "stderr": p.stderr.decode("utf-8", "replace")[-400:]}, True)
+            # the -v twin of the undisturbed run: logging (which prints git's answers) may neither fail nor change stdout
+            if "-v" not in c:
+                pv = subprocess.run([ZERV] + c + ["-v"], stdin=subprocess.DEVNULL, stdout=subprocess.PIPE, stderr=subprocess.PIPE, env=dict(BASE_ENV, RUST_LOG=rng.choice(["", "debug", "trace"])), cwd=repos[n])
+                st["verbose_twins"] = st.get("verbose_twins", 0) + 1
+                run.evaluations += 1
+                dv = discipline(pv.returncode, pv.stdout, pv.stderr)
+                if dv is None and (pv.returncode != p.returncode or (p.returncode == 0 and mask_now(pv.stdout.decode("utf-8", "replace"), now) != mask_now(p.stdout.decode("utf-8", "replace"), now))):
+                    dv = "-v changes the exit status or stdout"
+                if dv:
+                    run.add_violation("oracle", {"stream": "git_fault_injection", "what": dv, "described": {"repo": n, "argv": c + ["-v"], "fault": None}, "rc": pv.returncode,
+                                                 "stdout": pv.stdout.decode("utf-8", "replace")[:300], "stderr": pv.stderr.decode("utf-8", "replace")[-400:]}, True)
             ncalls = int(open(cf).read().strip()) if os.path.exists(cf) else 0
             st["git_calls_seen"] += ncalls
             for k in list(range(1, ncalls + 1)) + ["all"]:
